@@ -31,6 +31,20 @@ def make_permset(flip):
             items = sorted(set.__iter__(self))
             return iter(items[::-1] if flip else items)
 
+        # set algebra yields sets that are just as unordered
+        def intersection(self, *o):
+            return PermSet(set.intersection(self, *o))
+
+        def union(self, *o):
+            return PermSet(set.union(self, *o))
+
+        def difference(self, *o):
+            return PermSet(set.difference(self, *o))
+
+        __and__ = lambda self, o: PermSet(set.__and__(self, o))  # noqa: E731
+        __or__ = lambda self, o: PermSet(set.__or__(self, o))  # noqa: E731
+        __sub__ = lambda self, o: PermSet(set.__sub__(self, o))  # noqa: E731
+
     return PermSet
 
 
@@ -214,3 +228,45 @@ OBLIGATIONS.append(Ob("order_independence_wide", order_independence_wide,
                       functions=["multidecoder.registry.get_keywords", "multidecoder.keyword.find_keywords", "multidecoder.multidecoder.Multidecoder.scan_node"],
                       stubs=["os.walk / open and `set` as in order_independence"],
                       bound="3 keyword files, 4 one-byte keywords over {a A b} (one listed twice), data of 4 bytes"))
+
+
+# ---- registry order under include / exclude filters ------------------------------------------------------------
+import pkgutil
+
+import multidecoder.decoders as _DEC
+
+MODULES = [m.name for m in pkgutil.iter_modules(_DEC.__path__)]
+
+
+def _analyzers(flip, include, exclude):
+    real_set = REG.__dict__.get("set")
+    REG.set = make_permset(flip)
+    try:
+        return [f.__module__ + "." + f.__qualname__ for f in REG.get_analyzers(include=include, exclude=exclude)]
+    finally:
+        if real_set is None:
+            del REG.set
+        else:
+            REG.set = real_set
+
+
+def analyzer_order(i0, i1, x0, fs2):
+    """the decoder list built with an include filter of two modules (given in either order) and an exclude filter of
+    one module is the same list under every iteration order of the sets the registry builds from the filters; hits
+    on identical spans nest in registry order, so this order is part of the scan result"""
+    inc = [MODULES[i1], MODULES[i0]]
+    exc = [MODULES[x0]]
+    a = _analyzers(False, inc, exc)
+    b = _analyzers(fs2, inc, exc)
+    if a != b:
+        return hx.fail("decoder order depends on set iteration order", include=inc, exclude=exc, first=a, second=b), True
+    return True, len(a) >= 2
+
+
+_NM = len(MODULES)
+OBLIGATIONS.append(Ob("analyzer_order_under_filters", analyzer_order,
+                      [("i0", f"int:0:{_NM - 1}"), ("i1", f"int:0:{_NM - 1}"), ("x0", f"int:0:{_NM - 1}"), ("fs2", "bool")],
+                      pre="i0 < i1 and (x0 == 0 or x0 == i0)", tier="both", timeout=900, layer="B",
+                      functions=["multidecoder.registry.get_analyzers"],
+                      stubs=["the name `set` in multidecoder.registry: a set subclass (closed under set algebra) iterating in an arbitrary (ascending or descending) order"],
+                      bound=f"include = any 2 of the {_NM} shipped decoder modules, exclude = the first module or the first included one, both iteration orders"))
